@@ -167,3 +167,7 @@ def ORACLE(v, scn, out):
             if kk.startswith(hp) and kk != k and (int(pre[kk]['balance']) if kk in pre else 0) != (int(post[kk]['balance']) if kk in post else 0):
                 bad.append('another holder changed')
     return bad
+
+from checks import migrate as _migrate
+_migrate.attach(globals(), 'bsei')
+_migrate.attach(globals(), 'reward')
